@@ -5,6 +5,7 @@
 -/
 import D2V.Drv.Common
 import D2V.Model.SemAst
+import D2V.Model.Boards
 open Lean
 
 namespace D2V.Drv.SemX
@@ -198,6 +199,32 @@ def CBoard.sub? (b : CBoard) : List (String × String) → Option CBoard
   | (k, n) :: r => do
     let c ← b.boards.find? fun x => x.kind == k && x.name == n
     c.sub? r
+
+/-! ### the flat fragment on which the functional specifications (boards, imports) are compared -/
+
+open D2V.Boards in
+def opOfStmt : Stmt → Option (List Op)
+  | .field 0 [n] none .none => if n.q == 0 then some [.decl n.s] else none
+  | .field 0 [n] none (.scal v) => do let t ← v.text?; if v.q == 0 && n.q == 0 then some [.set n.s "Label" t] else none
+  | .field 0 [n] none .null => if n.q == 0 then some [.del n.s] else none
+  | .field 0 [n, a] none (.scal v) => do
+    let t ← v.text?
+    if n.q == 0 && a.q == 0 && a.s == "shape" then some [.set n.s "Shape" t] else none
+  | .field 0 [n, s, a] none (.scal v) => do
+    let t ← v.text?
+    if n.q == 0 && s.s == "style" && a.s == "fill" then some [.set n.s "style.Fill" t] else none
+  | _ => none
+
+
+open D2V.Boards in
+def expectedAttrs (name : String) (a : Attrs) : List (String × String) :=
+  let label := ((a.find? (·.1 == "Label")).map (·.2)).getD name
+  let shape := ((a.find? (·.1 == "Shape")).map (·.2)).getD "rectangle"
+  let fill := (a.find? (·.1 == "style.Fill")).map (·.2)
+  [("Label", label), ("Shape", shape)] ++ (match fill with | some f => [("style.Fill", f)] | none => [])
+
+def sortEnts (l : List CEnt) : List CEnt := (l.toArray.qsort (fun a b => a.id < b.id)).toList
+
 
 /-! ### verdict lines must be single lines (`repr` of long values breaks lines) -/
 
